@@ -2,12 +2,15 @@
 
 CONFIGS = {
     "native": {"args": ["--release"], "bin": "release/svh"},
+    "tsan": {"toolchain": ["+nightly"], "args": ["--release", "-Zbuild-std", "--target", "x86_64-unknown-linux-gnu"],
+             "env": {"RUSTFLAGS": "-Zsanitizer=thread", "RUSTUP_TOOLCHAIN": "nightly"},
+             "bin": "x86_64-unknown-linux-gnu/release/svh"},
     "native-nda": {"args": ["--profile", "nda"], "bin": "nda/svh"},
     "sched": {"args": ["--release", "--features", "shuttle"], "bin": "release/svh"},
     "persist": {"args": ["--release", "--features", "persist"], "bin": "release/svh"},
 }
 
-SETUP_CONFIGS = ["native"]
+SETUP_CONFIGS = ["native", "sched"]
 
 ASSUME_SINGLE = [
     "programs are interpreter-shaped (generic tracked fns interpreting generated program data); other user-code shapes are not covered",
@@ -100,8 +103,96 @@ PLANS = {
              "reference; non-trivial iff >=1 too-many-iterations panic" + DIST,
              60000, 1500000, {"too_many_panics": 2000, "iterations": 500000}),
 }
+ASSUME_CONC = [
+    "programs are interpreter-shaped (generic tracked fns interpreting generated program data)",
+    "only the sampled schedules / thread timings were explored; shuttle is sequentially consistent and replaces parking_lot, "
+    "the OS-thread engine uses the real lock implementation but cannot enumerate interleavings",
+    "the reference interpreter is trusted for expected values",
+]
+
+
+def sched(qcases, tcases, sub="sched", **kw):
+    r = {"sub": sub, "cfg": "sched", "quick": {"cases": qcases, "secs": 100}, "thorough": {"cases": tcases, "secs": 900}}
+    r.update(kw)
+    return r
+
+
+def osrun(qcases, tcases, sub="os", cfg="native", **kw):
+    r = {"sub": sub, "cfg": cfg, "quick": {"cases": qcases, "secs": 100}, "thorough": {"cases": tcases, "secs": 900}}
+    r.update(kw)
+    return r
+
+
+def tsan(tcases):
+    return {"sub": "os-tsan", "cfg": "tsan", "thorough": {"cases": tcases, "secs": 900},
+            "env": {"TSAN_OPTIONS": "halt_on_error=0 exitcode=66 report_signal_unsafe=0"}, "sanitizer": "tsan"}
+
+
+def C(rule, runs, minq, **kw):
+    d = {"rule": rule, "runs": runs, "min_counts": {"quick": minq}, "assumptions": ASSUME_CONC}
+    d.update(kw)
+    return d
+
+
+ILV = ("; one evaluation = one executed schedule (shuttle) or one timed run with a failpoint-delay profile (OS threads); "
+       "distinct = distinct hash of the sequence of (thread, event kind, key) over scheduling-relevant events")
+PLANS["C08"] = C(
+    "case = (program interning into constant-hash reclaimable types and a real-hash type, pre-history, 2-4 threads interning values "
+    "from a 3-value domain at top level and inside queries); per revision the relation value<->handle must be a bijection and field "
+    "reads must return the interned value; non-trivial iff two observations of the same value in one revision were made" + ILV,
+    [sched(16000, 400000), osrun(480, 12000), tsan(1500)],
+    {"intern_same_handle_again": 20000, "schedules": 50000})
+PLANS["C16"] = C(
+    "case = (acyclic program with shared sub-queries, pre-history with a write so verification and execution both run, 2-4 threads "
+    "with overlapping requests); every thread result vs the reference; deadlock = all threads blocked (shuttle) / protocol-level stuck "
+    "state (OS threads); non-trivial iff >=1 thread blocked on another thread's computation" + ILV,
+    [sched(16000, 400000), osrun(480, 12000), tsan(1500)],
+    {"dg_block_on": 10000, "thread_results": 500000, "schedules": 50000})
+PLANS["C17"] = C(
+    "same executions as C16 (no lru, no cycles, no cancellation, no panics); WillExecute counted per (key incl. generation, revision) "
+    "across all handles must be <= 1; non-trivial iff >=1 thread blocked on another thread's computation" + ILV,
+    [sched(16000, 400000), osrun(480, 12000)],
+    {"dg_block_on": 10000, "keys_executed": 500000, "schedules": 50000})
+PLANS["C18"] = C(
+    "case = (cyclic program with fixpoint or cycle_result functions, nested/conditional cycles, 2-3 threads entering at different "
+    "members, optionally after a revision change); thread results vs least fixpoint / SCC oracle; deadlock / step bound; non-trivial "
+    "iff a lock transfer or a cross-thread wait happened" + ILV,
+    [sched(12000, 300000), osrun(480, 12000), tsan(1500)],
+    {"dg_transfer": 20000, "dg_block_on": 20000, "schedules": 50000})
+PLANS["C19"] = C(
+    "case = any of the concurrent workloads (shuttle: acyclic and recovering-cycle readers; OS threads: also cycle panics, writer + "
+    "readers, local cancellation); the recorded claim/wait/transfer trace is replayed against the abstract protocol model; non-trivial "
+    "iff >=1 BlockOn was recorded" + ILV,
+    [sched(16000, 400000), osrun(480, 12000)],
+    {"dg_block_on": 20000, "dg_unblock": 20000, "dg_transfer": 5000, "dg_distinct_states": 20000})
+PLANS["C20"] = C(
+    "case = (acyclic or fixpoint program, one writer thread performing input writes / synthetic writes / lru capacity changes / "
+    "eviction triggers through a shared master handle, 1-2 reader threads that take clones, run requests and drop the clone when "
+    "done or cancelled); reader results vs reference of the clone's revision, write/drop ordering, cancellation rule, results after "
+    "the phase; non-trivial iff a reader was cancelled or a write completed" + ILV,
+    [osrun(640, 16000), tsan(2000)],
+    {"cancelled_pending_write": 50, "writes_checked": 5000, "thread_results": 10000})
+PLANS["C21"] = C(
+    "case = (acyclic or fixpoint program, 2-3 reader threads, a canceller thread firing tokens); Cancelled::Local only with a "
+    "preceding unconsumed cancel() of that handle, a cancel between two calls makes the next call unwind, other results vs reference; "
+    "non-trivial iff >=1 local cancellation was observed" + ILV,
+    [osrun(640, 16000), tsan(2000)],
+    {"cancelled_local": 500, "cancels": 5000})
+PLANS["C24"] = C(
+    "case = (program with makers, 2-4 threads creating inputs directly, interning, and running makers on their own handles); "
+    "identities pairwise distinct per type, read-back equals created values; non-trivial iff structs were created" + ILV,
+    [sched(12000, 300000), osrun(480, 12000), tsan(1500)],
+    {"created": 100000, "schedules": 50000})
+PLANS["C14"]["runs"].append(osrun(480, 12000))
+PLANS["C14"]["min_counts"]["quick"]["propagated_cycle_panics"] = 5
+PLANS["C14"]["rule"] += ("; second run: the same cyclic programs entered from 2-3 OS threads with failpoint delays (cycle panic on the "
+                         "detecting thread, propagated panic on waiters, no stuck state)")
+PLANS["C11"]["runs"].append(sched(12000, 300000))
+PLANS["C11"]["rule"] += ("; second run: 2-4 threads request accumulated() for roots sharing helpers right after a write, under shuttle "
+                         "schedules, each list vs the reference")
+
 for _p in PLANS.values():
     _p["runs"] = [r for r in _p["runs"]]
     for r in _p["runs"]:
-        if r["quick"]["cases"] == 0:
+        if "quick" in r and r["quick"]["cases"] == 0:
             del r["quick"]
